@@ -200,9 +200,17 @@ Definition comment_like (s : str) : bool := match s with (35%N) :: _ => true | _
 Definition arg_ok (w : tok) : bool :=
   match t_kind w with WkPlain => true | _ => false end &&
   negb (is_operator (t_text w)) && negb (io_number_shaped (t_text w)) && negb (comment_like (t_text w)).
-(* a word that may stand in command position: a command name, a function name, a case pattern *)
+(* POSIX recognises a reserved word only as the *first* word of a command, and an
+   assignment word only before the command name. *)
+(* the first word of a command: a command name without assignments before it, a function name *)
 Definition name_ok (w : tok) : bool :=
   arg_ok w && negb (is_reserved (t_text w)) && negb (assignment_like (t_text w)).
+(* a command name after at least one assignment word: may be spelled like a reserved
+   word (`VAR=x fi` runs a command named fi) *)
+Definition later_name_ok (w : tok) : bool := arg_ok w && negb (assignment_like (t_text w)).
+(* a case pattern: any word, also one spelled like a reserved word or an assignment;
+   only `esac` would end the case clause *)
+Definition pattern_ok (w : tok) : bool := arg_ok w && negb (str_eqb (t_text w) s_esac).
 Definition assign_ok (w : tok) : bool := arg_ok w && assignment_like (t_text w).
 
 Definition fd_ok (fd : option str) : bool :=
@@ -213,7 +221,7 @@ Definition sitem_ok (i : sitem) : bool :=
 Definition simple_ok (assigns : list tok) (items : list sitem) : bool :=
   forallb assign_ok assigns &&
   match items with
-  | SWord w :: r => name_ok w && forallb sitem_ok r
+  | SWord w :: r => (match assigns with [] => name_ok w | _ => later_name_ok w end) && forallb sitem_ok r
   | _ => forallb sitem_ok items
   end &&
   negb (match assigns, items with [], [] => true | _, _ => false end).
@@ -245,8 +253,8 @@ with wf_else (e : elsepart) : bool :=
 with wf_items (i : caseitems) : bool :=
   match i with
   | CINil => true
-  | CILast _ p ps body => name_ok p && forallb name_ok ps && wf_body body
-  | CICons _ p ps body rest => name_ok p && forallb name_ok ps && wf_body body && wf_items rest
+  | CILast _ p ps body => pattern_ok p && forallb pattern_ok ps && wf_body body
+  | CICons _ p ps body rest => pattern_ok p && forallb pattern_ok ps && wf_body body && wf_items rest
   end
 with wf_body (b : cbody) : bool :=
   match b with BNone => true | BSome l => wf_clist l end
@@ -264,6 +272,9 @@ with wf_clist (l : clist) : bool :=
   match l with CL q _ => wf_seq q end.
 
 Definition wf_words (p : program) : bool := wf_clist p.
+(* the word discipline above is POSIX's own; the name recalls that earlier versions of this
+   development needed a stricter one *)
+Definition wf_words_posix (p : program) : bool := wf_words p.
 
 (* ---------- is the tree the POSIX reading of its own text? ----------
 
@@ -328,115 +339,9 @@ with faithful_clist (l : clist) : bool :=
 
 Definition faithful (p : program) : bool := faithful_clist p.
 
-(* ---------- the guard of the partial theorem ----------
+(* ---------- no further guard ----------
 
-   shell.y lacks POSIX's `for name ; do` (for_clause : For name sequential_sep
-   do_group); everything else of the fragment is accepted (Props/C11.v). *)
-Fixpoint nosemi_cmd (c : cmd) : bool :=
-  match c with
-  | CSimple _ _ => true
-  | CCompound k _ => nosemi_compound k
-  | CFuncDef _ body _ => nosemi_compound body
-  end
-with nosemi_compound (k : compound) : bool :=
-  match k with
-  | KBrace l => nosemi_clist l
-  | KSubshell l => nosemi_clist l
-  | KFor _ m body => match m with ForSemiDo => false | _ => nosemi_clist body end
-  | KCase _ items => nosemi_items items
-  | KIf c t e => nosemi_clist c && nosemi_clist t && nosemi_else e
-  | KWhile c b => nosemi_clist c && nosemi_clist b
-  | KUntil c b => nosemi_clist c && nosemi_clist b
-  end
-with nosemi_else (e : elsepart) : bool :=
-  match e with
-  | ENone => true
-  | EElse l => nosemi_clist l
-  | EElif c t e' => nosemi_clist c && nosemi_clist t && nosemi_else e'
-  end
-with nosemi_items (i : caseitems) : bool :=
-  match i with
-  | CINil => true
-  | CILast _ _ _ body => nosemi_body body
-  | CICons _ _ _ body rest => nosemi_body body && nosemi_items rest
-  end
-with nosemi_body (b : cbody) : bool :=
-  match b with BNone => true | BSome l => nosemi_clist l end
-with nosemi_pipe (p : pipe) : bool :=
-  match p with PCmd c => nosemi_cmd c | PPipe p' c => nosemi_pipe p' && nosemi_cmd c end
-with nosemi_andor (a : andor) : bool :=
-  match a with
-  | AOne _ p => nosemi_pipe p
-  | AAnd a' _ p => nosemi_andor a' && nosemi_pipe p
-  | AOr a' _ p => nosemi_andor a' && nosemi_pipe p
-  end
-with nosemi_seq (q : seq) : bool :=
-  match q with QOne a => nosemi_andor a | QSeq q' _ a => nosemi_seq q' && nosemi_andor a end
-with nosemi_clist (l : clist) : bool :=
-  match l with CL q _ => nosemi_seq q end.
-
-(* the tree is the POSIX reading of its text and does not use `for name ; do` *)
-Definition supported (p : program) : bool := faithful p && nosemi_clist p.
-
-(* ---------- POSIX's own rule for command names ----------
-
-   POSIX recognises a reserved word only as the *first* word of a command: after
-   an assignment word (or a redirection) the next word is a command name even if
-   it is spelled like a reserved word (`VAR=x fi` runs a command named fi).
-   [wf_words] above is stricter (a command name is never spelled like a reserved
-   word); [wf_words_posix] is the POSIX rule and is what the unguarded statement
-   of Props/C11.v quantifies over. *)
-Definition later_name_ok (w : tok) : bool := arg_ok w && negb (assignment_like (t_text w)).
-Definition simple_ok_posix (assigns : list tok) (items : list sitem) : bool :=
-  forallb assign_ok assigns &&
-  match items with
-  | SWord w :: r => (match assigns with [] => name_ok w | _ => later_name_ok w end) && forallb sitem_ok r
-  | _ => forallb sitem_ok items
-  end &&
-  negb (match assigns, items with [], [] => true | _, _ => false end).
-
-Fixpoint wfp_cmd (c : cmd) : bool :=
-  match c with
-  | CSimple assigns items => simple_ok_posix assigns items
-  | CCompound k rs => wfp_compound k && forallb redir_ok rs
-  | CFuncDef name body rs => name_ok name && wfp_compound body && forallb redir_ok rs
-  end
-with wfp_compound (k : compound) : bool :=
-  match k with
-  | KBrace l => wfp_clist l
-  | KSubshell l => wfp_clist l
-  | KFor name m body =>
-      arg_ok name && match m with ForIn ws => forallb arg_ok ws | _ => true end && wfp_clist body
-  | KCase w items => arg_ok w && wfp_items items
-  | KIf c t e => wfp_clist c && wfp_clist t && wfp_else e
-  | KWhile c b => wfp_clist c && wfp_clist b
-  | KUntil c b => wfp_clist c && wfp_clist b
-  end
-with wfp_else (e : elsepart) : bool :=
-  match e with
-  | ENone => true
-  | EElse l => wfp_clist l
-  | EElif c t e' => wfp_clist c && wfp_clist t && wfp_else e'
-  end
-with wfp_items (i : caseitems) : bool :=
-  match i with
-  | CINil => true
-  | CILast _ p ps body => name_ok p && forallb name_ok ps && wfp_body body
-  | CICons _ p ps body rest => name_ok p && forallb name_ok ps && wfp_body body && wfp_items rest
-  end
-with wfp_body (b : cbody) : bool :=
-  match b with BNone => true | BSome l => wfp_clist l end
-with wfp_pipe (p : pipe) : bool :=
-  match p with PCmd c => wfp_cmd c | PPipe p' c => wfp_pipe p' && wfp_cmd c end
-with wfp_andor (a : andor) : bool :=
-  match a with
-  | AOne _ p => wfp_pipe p
-  | AAnd a' _ p => wfp_andor a' && wfp_pipe p
-  | AOr a' _ p => wfp_andor a' && wfp_pipe p
-  end
-with wfp_seq (q : seq) : bool :=
-  match q with QOne a => wfp_andor a | QSeq q' _ a => wfp_seq q' && wfp_andor a end
-with wfp_clist (l : clist) : bool :=
-  match l with CL q _ => wfp_seq q end.
-
-Definition wf_words_posix (p : program) : bool := wfp_clist p.
+   With the repairs in /repo (for name ; do in shell.y; reserved words only in
+   command position) every tree that is the POSIX reading of its own text is
+   accepted; [supported] is kept as a name for that. *)
+Definition supported (p : program) : bool := faithful p.
